@@ -3,18 +3,21 @@
 (* check (C16-C20) - by simulation (random programs) and systematically.        *)
 EXTENDS MidiSem, Bar, TLC, Json, IOUtils
 CONSTANTS D, MaxTracks, MaxBars, MaxEntries, Mode
+RT == Mode = "rt"     \* round-trippable programs only (C17): whole tick counts, velocity >= 1, no tempo change
 VARIABLES prog, steps
 KeysUsed == AllKeys
 Meters == {<<4,4>>, <<3,4>>, <<6,8>>, <<2,2>>, <<5,4>>, <<12,8>>, <<7,8>>, <<2,4>>}
 Val(b, d, r) == [b |-> b, d |-> d, r |-> r]
-Vals == {Val(2, 0, <<1,1>>), Val(3, 0, <<1,1>>), Val(4, 0, <<1,1>>), Val(5, 0, <<1,1>>), Val(6, 0, <<1,1>>), Val(7, 0, <<1,1>>),
+AllVals == {Val(2, 0, <<1,1>>), Val(3, 0, <<1,1>>), Val(4, 0, <<1,1>>), Val(5, 0, <<1,1>>), Val(6, 0, <<1,1>>), Val(7, 0, <<1,1>>),
          Val(4, 1, <<1,1>>), Val(5, 1, <<1,1>>), Val(3, 2, <<1,1>>), Val(4, 0, <<3,2>>), Val(5, 0, <<3,2>>), Val(6, 0, <<5,4>>),
          Val(5, 0, <<7,4>>), Val(4, 0, <<5,4>>), Val(6, 1, <<1,1>>), Val(8, 0, <<1,1>>)}
-NoteP == {[n |-> <<"C">>, o |-> 4, ch |-> 1, vel |-> 64], [n |-> <<"E","b">>, o |-> 4, ch |-> 1, vel |-> 64],
+Vals == IF RT THEN {v \in AllVals : WholeTicks(Ticks(v))} ELSE AllVals
+AllNoteP == {[n |-> <<"C">>, o |-> 4, ch |-> 1, vel |-> 64], [n |-> <<"E","b">>, o |-> 4, ch |-> 1, vel |-> 64],
           [n |-> <<"F","#">>, o |-> 3, ch |-> 0, vel |-> 127], [n |-> <<"G">>, o |-> 5, ch |-> 9, vel |-> 1],
           [n |-> <<"B","#">>, o |-> 2, ch |-> 15, vel |-> 100], [n |-> <<"C","b">>, o |-> 6, ch |-> 4, vel |-> 0],
           [n |-> <<"A">>, o |-> 0, ch |-> 2, vel |-> 90], [n |-> <<"D","#","#">>, o |-> 7, ch |-> 1, vel |-> 33],
           [n |-> <<"G">>, o |-> 8, ch |-> 3, vel |-> 64], [n |-> <<"B","b","b">>, o |-> 1, ch |-> 7, vel |-> 80]}
+NoteP == IF RT THEN {x \in AllNoteP : x.vel >= 1} ELSE AllNoteP
 SortByPitch(S) == SetToSortSeq(S, LAMBDA a, b : MidiPitch(a) < MidiPitch(b))
 NoteSeq == SortByPitch(NoteP)
 Contents == {<<>>} \cup {<<NoteSeq[i]>> : i \in 1..Len(NoteSeq)} \cup
@@ -39,7 +42,7 @@ AddBar == /\ prog.tracks # <<>> /\ Len(LastT.bars) < MaxBars
           /\ \E k \in KeysUsed, m \in Meters :
                 prog' = [prog EXCEPT !.tracks[Len(prog.tracks)].bars = Append(@, [key |-> k, meter |-> m, entries |-> <<>>])]
 AddEntry == /\ prog.tracks # <<>> /\ LastT.bars # <<>> /\ Len(LastB.entries) < MaxEntries
-            /\ \E v \in Vals, c \in Contents, bpm \in {0, 0, 0, 90} :
+            /\ \E v \in Vals, c \in Contents, bpm \in (IF RT THEN {0} ELSE {0, 90}) :
                  /\ DistinctPitches(c) /\ BarTotal(LastB) + Ticks(v) <= BarLen(LastB)
                  /\ prog' = [prog EXCEPT !.tracks[Len(prog.tracks)].bars[Len(LastT.bars)].entries =
                                 Append(@, [v |-> v, t |-> Ticks(v), rest |-> c = <<>>, notes |-> c, bpm |-> IF c = <<>> THEN 0 ELSE bpm])]
